@@ -192,6 +192,68 @@ def jobs(pid, tier, seed):
     return js
 
 
+def extra_checks(pid, tier, seed):
+    """Checks outside the lockstep machinery.  C11: several pools of both classes in one loop
+    number their tasks independently and unnamed pools get distinct names (the model has a single
+    pool; this clause is exercised directly on the implementation)."""
+    if pid != "C11":
+        return []
+    import asyncio
+    import re
+    import lockstep
+    lockstep._init_worker()
+    from asyncio_taskpool.pool import SimpleTaskPool, TaskPool
+    fails = []
+    rng = random.Random(seed)
+
+    async def go():
+        seen = {}
+
+        async def work(tag):
+            name = asyncio.current_task().get_name()
+            seen.setdefault(tag, []).append(name)
+            await asyncio.sleep(0)
+
+        pools = [TaskPool(), TaskPool(pool_size=2), SimpleTaskPool(work, args=("s2",)),
+                 TaskPool(name="named"), SimpleTaskPool(work, args=("s4",), pool_size=3)]
+        names = [str(p) for p in pools]
+        unnamed = [n for i, n in enumerate(names) if i != 3]
+        if len(set(unnamed)) != len(unnamed):
+            fails.append({"what": "unnamed pools share a name", "names": names})
+        counts = [0] * len(pools)
+        for _ in range(30):
+            i = rng.randrange(len(pools))
+            n = rng.randint(1, 3)
+            p = pools[i]
+            if isinstance(p, SimpleTaskPool):
+                p.start(n)
+            else:
+                p.apply(work, args=(f"p{i}",), num=n)
+            counts[i] += n
+            for _ in range(rng.randint(0, 4)):
+                await asyncio.sleep(0)
+            if rng.random() < 0.3:
+                await p.flush()
+        for p in pools:
+            await p.gather_and_close()
+        for i, p in enumerate(pools):
+            tag = {2: "s2", 4: "s4"}.get(i, f"p{i}")
+            got = []
+            for nm in seen.get(tag, []):
+                m = re.fullmatch(re.escape(names[i]) + r"_Task-(\d+)", nm)
+                if not m:
+                    fails.append({"what": "task name does not carry the pool's name and an id",
+                                  "pool": names[i], "task": nm})
+                else:
+                    got.append(int(m.group(1)))
+            if sorted(got) != list(range(counts[i])):
+                fails.append({"what": "ids of one pool are not 0..n-1 (pools must number independently)",
+                              "pool": names[i], "ids": sorted(got), "created": counts[i]})
+
+    asyncio.run(go())
+    return fails
+
+
 def label_kind(label):
     w = label.split()
     if w[0] == "run":
